@@ -4,7 +4,8 @@ Implementation side: generated grammars and models (harness/procgen.py) in which
 one chosen processor call fails: an object processor (own rule or the abstract
 rule of the holding attribute; on the model root, inner objects, objects of
 imported files) or a match processor (base types, regex / sequence / nested match
-rules; n-th call), raising TextXError / TextXSemanticError without or with
+rules, regexps with
+groups under `use_regexp_group`; n-th call), raising TextXError / TextXSemanticError without or with
 processor-supplied location attributes, or ValueError / KeyError, with or without
 `textxerror_wrap`, loaded from a string, a string with file name, or files.  The
 observed error attributes are compared with `Proc.outcome` (Drivers/Proc.lean, op
@@ -68,7 +69,10 @@ class Prop(Check):
     QUICK_CASES = 390
     THOROUGH_CASES = 12000
     RULE = ("generated models with one failing processor call: object processor (own / abstract rule; root, inner, "
-            "imported-file objects) or match processor (base types, regex, sequence, nested match rules), raising "
+            "imported-file objects) or match processor (base types, regex, sequence, nested match rules; regexps without "
+            "group, with one group at / behind the start of the match and on a later line, with two groups, with "
+            "non-capturing groups; a third of the match cases aims at a regexp value), metamodels with/without "
+            "use_regexp_group, memoization, autokwd, ignore_case, textx_tools_support, raising "
             "TextXError/TextXSemanticError with a random subset of location attributes supplied, or ValueError/KeyError, "
             "with/without textxerror_wrap, from string / named string / files, text starting on any line and column; "
             "non-trivial = the failing call happened and the property's hypothesis holds (TextXError, or wrapped)")
@@ -471,6 +475,15 @@ class Prop(Check):
             d[key] = d.get(key, 0) + 1
             if s["supplied"]:
                 d["with-supplied-location"] = d.get("with-supplied-location", 0) + 1
+            opts = c["schema"]["opts"]
+            for name in ("use_regexp_group", "memoization", "autokwd", "ignore_case", "textx_tools_support"):
+                if opts.get(name):
+                    d["opt:" + name] = d.get("opt:" + name, 0) + 1
+            if s["target"]["kind"] == "match":
+                m = {x["name"]: x for x in c["schema"]["matches"]}.get(s["target"]["rule"])
+                if m and m["kind"] == "re":
+                    key = f"regexp-target/{m.get('shape', 'plain')}/{'group' if opts.get('use_regexp_group') else 'nogroup'}"
+                    d[key] = d.get(key, 0) + 1
             if len(c["files"]) > 1 and s["target"]["kind"] == "obj":
                 d["multi-file"] = d.get("multi-file", 0) + 1
         return {"distribution": d}
